@@ -517,7 +517,7 @@ fn reduce<T>(g: Sequence<T>, func: (T, T)->(T)) -> T{
 
 fn repeat<T>(a: Sequence<T>)->Sequence<T>{
     let length = a.len();
-    if(is_error(length),
+    if(is_error(length) || length == 0,
         a,
         count().map((idx: int)->{a[idx%length]})
     )
@@ -526,7 +526,7 @@ fn repeat<T>(a: Sequence<T>)->Sequence<T>{
 fn repeat<T>(a: Sequence<T>, n: int)->Sequence<T>{
     let length = a.len();
     if(is_error(length),
-        a,
+        if(n == 0, a.take(0), a),
         count().map((idx: int)->{a[idx%length]}).take(n*length)
     )
 }
